@@ -55,9 +55,12 @@ def _isint(tok):
 
 def strict_write_check(text, n, clauses):
     """every line is a comment, the single problem line, or a clause line; counts are the true ones"""
-    lines = text.split('\n')
-    if lines[-1] != '':
+    if not text.endswith('\n'):
         return False
+    # universal newlines: what a text-mode file reader (or str.splitlines) will see as lines
+    lines = text.splitlines() + ['']
+    if text.split('\n')[:-1] != text.splitlines():
+        return False                    # a bare \r, \x0b, \x0c ... would start a new line for a file reader
     plines = [l for l in lines[:-1] if l.startswith('p ')]
     if plines != ['p cnf %d %d' % (n, len(clauses))]:
         return False
